@@ -517,7 +517,9 @@ _CROSS7 = {
                                   [(SERVER, "    if (date.month(), date.day()) < (4, 6) {", "    if (date.month(), date.day()) <= (4, 6) {")], ["R5:"])),
             on("neutral-r23", mut("r23+find-date-only", "lookup pipeline compares the date only",
                                   [(SERVER, "            .find(|d| d.date == date && d.ticker.eq_ignore_ascii_case(ticker))", "            .find(|d| d.date == date)")], ["R5:"]))],
-    "C18": [on("neutral-r21", mut("r21+sell-pushed-as-buy", "Sell rows are collected with side Buy",
+    "C18": [on("neutral-r16", mut("r16+dedup-through-helper", "output lines pushed through a helper are de-duplicated in convert",
+                                  [(SCHWAB, "        Ok(ConvertOutput {\n            cgt_content: output_lines.join(\"\\n\"),", "        output_lines.dedup();\n        Ok(ConvertOutput {\n            cgt_content: output_lines.join(\"\\n\"),")], ["R2:"])),
+            on("neutral-r21", mut("r21+sell-pushed-as-buy", "Sell rows are collected with side Buy",
                                   [(SCHWAB, "            SchwabTransaction::Sell(trade) => self.push_trade(TradeSide::Sell, trade),", "            SchwabTransaction::Sell(trade) => self.push_trade(TradeSide::Buy, trade),")], ["R2:Sell:row-kind"])),
             on("neutral-r21", mut("r21+keyword-swapped", "side Sell is written BUY",
                                   [(SCHWAB, "            TradeSide::Sell => \"SELL\",", "            TradeSide::Sell => \"BUY\",")], ["R3:"])),
